@@ -1,3 +1,4 @@
+import FindVerif.Spec.Find
 import FindVerif.Driver.Lines
 import FindVerif.Spec.Grammar
 import FindVerif.Spec.Scheme.Read
@@ -385,12 +386,94 @@ def checkC20 (req : List String) (obs : String) : Option String :=
   | _, .panic stg => some ("panic " ++ stg)
   | _, _ => none
 
-def checkC11 (obs : String) : Option String :=
+def dTarget (s : Sx) : Option Target :=
+  match headOf s with
+  | some ("Stdout", [t]) => some (.stdout (dChr t))
+  | some ("File", [n, t]) => (dStr n).map fun name => .file name (dChr t)
+  | _ => none
+
+/-- The destination table from the observation (`none` inside = plain mode). -/
+def decodeIoMap (m0 : String) : Option (Option (List (Nat × Target))) :=
+  if m0 = "none" then some none else
+  match Sx.parse (m0.replace "," " ") with
+  | some (.list (.atom "#" :: entries)) =>
+    (entries.mapM fun (en : Sx) => match en with
+      | Sx.list [Sx.atom k, t] => (dTarget t).map fun tg => (k.toNat!, tg)
+      | _ => none).map some
+  | _ => none
+
+/-- A resource request made by a leaf of the tree, in traversal order. -/
+inductive ResReq where
+  | matcher (pat : Text) (ci : Bool)
+  | printer (t : Target)
+  deriving DecidableEq
+
+def requestsOf : Expr → List ResReq
+  | .test (.name s) => [.matcher s false]
+  | .test (.path s) => [.matcher s false]
+  | .test (.insensitiveName s) => [.matcher s true]
+  | .test (.insensitivePath s) => [.matcher s true]
+  | .action a => match Spec.target a with
+    | some t => [.printer t]
+    | none => []
+  | .prec e | .not e => requestsOf e
+  | .and a b | .or a b | .list a b => requestsOf a ++ requestsOf b
+  | _ => []
+
+/-- Does the binding `name` of the read-back program denote the resource `r`? -/
+def denotes (p : Scheme.Program) (io : Option (List (Nat × Target))) (name : Text) (r : ResReq) : Bool :=
+  let sym (s : Text) := Scheme.SExp.sym s
+  match p.bindings.find? (fun b => b.1 = name), r with
+  | some (_, .list [.sym lam, .list [.sym v], .list [.sym f, .str pat', .sym v']]), .matcher pat ci =>
+    let want := (if Spec.hasGlob pat then cl!"fnmatch" else cl!"streq") ++ (if ci then cl!"-ci?" else cl!"?")
+    lam = cl!"lambda" && v = v' && f = want && pat' = pat
+  | some (_, .list [.sym lam, .list [.sym v], .list [.sym fr, .sym v', .chr tag]]), .printer t =>
+    lam = cl!"lambda" && v = v' && fr = cl!"%lf3:frame:2" &&
+      (match io with
+       | some table => (table.find? (fun kv => kv.1 = tag)).map (·.2) == some t
+       | none => false)
+  | some (_, .list [.sym mp, .sym port, .sym _, term]), .printer t =>
+    let portInit := (p.bindings.find? (fun b => b.1 = port)).map (·.2)
+    let (wantPort, wantTerm) : Scheme.SExp × Option Char := match t with
+      | .stdout tm => (.list [sym (cl!"current-output-port")], tm)
+      | .file n tm => (.list [sym (cl!"open-file"), .str n, .str (cl!"w")], tm)
+    let termOk := match wantTerm, term with
+      | some c, .chr k => c.toNat % 256 = k
+      | none, .bool false => true
+      | _, _ => false
+    mp = cl!"make-printer" && io.isNone && portInit == some wantPort && termOk
+  | _, _ => false
+
+/-- C11: generated names bound once and in scope; every reference in the policy body denotes
+    the resource requested by the corresponding leaf; equal requests share one name and different
+    requests never share. -/
+def checkC11 (req : List String) (obs : String) : Option String :=
   match decodeCompile obs with
-  | .ok _ _ _ ((text, _) :: _) =>
+  | .ok _ _ m0 ((text, _) :: _) =>
     match readProgram text with
     | none => some "program-does-not-read-back"
-    | some p => Scheme.scopeProblem p
+    | some p =>
+      match Scheme.scopeProblem p with
+      | some e => some e
+      | none =>
+        match treeOf req obs, decodeIoMap m0 with
+        | some e, some io =>
+          let target := if !e.hasAction then Expr.and e (.action .defaultPrint) else e
+          let reqs := requestsOf target
+          let refs := (Scheme.symbols p.body).filter fun s => isPrefix (cl!"%lf3:match:") s || isPrefix (cl!"%lf3:print:") s
+          if reqs.length ≠ refs.length then some s!"references-do-not-line-up requests={reqs.length} references={refs.length}" else
+          let pairs := reqs.zip refs
+          match pairs.find? (fun (r, n) => !denotes p io n r) with
+          | some (_, n) => some ("reference-denotes-another-resource " ++ String.ofList n)
+          | none =>
+            let rec share : List (ResReq × Text) → Option String
+              | [] => none
+              | (r, n) :: rest =>
+                match rest.find? (fun (r', n') => decide (r = r') != decide (n = n')) with
+                | some (_, n') => some ("sharing-wrong " ++ String.ofList n ++ " " ++ String.ofList n')
+                | none => share rest
+            share pairs
+        | _, _ => none
   | .panic stg => some ("panic " ++ stg)
   | _ => none
 
@@ -620,7 +703,7 @@ def propCheck (prop : String) (st : DState) (req : List String) (obs : String) :
   | "C12", _ => (st, checkC12 req obs)
   | "C04", _ => checkC04 st req obs
   | "C20", _ => (st, checkC20 req obs)
-  | "C11", _ => (st, checkC11 obs)
+  | "C11", _ => (st, checkC11 req obs)
   | "C09", _ => (st, checkC09 req obs)
   | "C10", _ => (st, checkC10 req obs)
   | "C16", _ => (st, checkC16 obs)
